@@ -84,6 +84,11 @@ enum Third {
 }
 
 fn core_body(prelinked: bool, third: Third) -> vsched::Body {
+    core_body_x(prelinked, third, true)
+}
+
+/// `p_exits == false`: the supervisor P stays alive, only the child exits (racing with the link)
+fn core_body_x(prelinked: bool, third: Third, p_exits: bool) -> vsched::Body {
     Arc::new(move || {
         Box::pin(async move {
             let mk = || {
@@ -108,7 +113,9 @@ fn core_body(prelinked: bool, third: Third) -> vsched::Body {
             let p2 = p.clone();
             let exiter = vsched::spawn("tree", async move {
                 let call = vsched::call_stamp();
-                inspect::run_exit_path(&p2, None);
+                if p_exits {
+                    inspect::run_exit_path(&p2, None);
+                }
                 (call, vsched::ret_stamp())
             });
             let (c3, p3, q3, d3) = (c.clone(), p.clone(), q.clone(), d.clone());
@@ -136,6 +143,19 @@ fn core_body(prelinked: bool, third: Third) -> vsched::Body {
             let mut bad = tree_invariants(&cells);
             let ps = inspect::tree_snapshot(&p);
             let cs = inspect::tree_snapshot(&c);
+            if !p_exits {
+                // only the child exited: the living P must not list it, and it must not name P
+                if c.get_status() == ActorStatus::Stopped && ps.children.as_ref().is_some_and(|ch| ch.contains(&c.get_id())) {
+                    bad.push(format!("the living actor P lists the stopped actor C as a child (link() returned {linked})"));
+                }
+                let key = format!("p-alive linked={linked} other={other_ok} csup={:?}", cs.supervisor.map(|s| s.to_string()));
+                for (_, x) in &cells {
+                    inspect::set_status(x, ActorStatus::Stopped);
+                }
+                let _ = (lcall, xret, &mut cp, &mut dp);
+                drop((pp, cp, qp, dp));
+                return Outcome { key, violations: bad };
+            }
             if ps.children.as_ref().is_some_and(|c| !c.is_empty()) {
                 bad.push(format!("the stopped actor P has children {:?}", ps.children));
             }
@@ -527,6 +547,9 @@ pub fn plan(tier: &str) -> Plan {
         let bound = bound.map(|b: usize| if thorough { b + 1 } else { b });
         units.push(Unit::explore_split(Job::new(format!("core/pre={pre}/{third:?}"), core_cfg.clone(), bound, core_body(pre, third)), 8));
     }
+    // the supervisor stays alive; only the child exits while it is being linked / relinked
+    units.push(Unit::explore_split(Job::new("core/p-alive/link-vs-child-exit", core_cfg.clone(), None, core_body_x(false, Third::ExitChild, false)), 8));
+    units.push(Unit::explore_split(Job::new("core/p-alive/prelinked-relink-vs-child-exit", core_cfg.clone(), None, core_body_x(true, Third::ExitChild, false)), 8));
     let cfg = ExecCfg::default();
     let lb = if thorough { 3 } else { 2 };
     let mut live = Vec::new();
